@@ -453,17 +453,17 @@ example :
   decide
 
 /-- Non-vacuity: `[roll, hit, roll, hit, hit, roll]` (irregular start); `nth 1` from the start
-reports the 2nd hit having processed two difficulty objects, `nth 0` then the 3rd (last) hit, a
-further `nth 5` returns `None` and drains the trailing drum roll; `nth 3` on a fresh calculator (3 hits)
+reports the 2nd hit having processed two difficulty objects, `nth 0` then the 3rd (last) hit including
+the trailing drum roll (the drain), a further `nth 5` returns `None`; `nth 3` on a fresh calculator (3 hits)
 returns `None` having consumed everything, `nth 2` the last hit. -/
 example :
     let objs := [false, true, false, true, true, false]
     let m := taikoMachine listSkills objs
     let g0 := taikoNew listSkills objs
-    (m.nth g0 1).1 = .some (2, [0, 1]) ∧ (m.nth (m.nth g0 1).2 0).1 = .some (3, [0, 1, 2]) ∧
+    (m.nth g0 1).1 = .some (2, [0, 1]) ∧ (m.nth (m.nth g0 1).2 0).1 = .some (3, [0, 1, 2, 3]) ∧
     (m.nth (m.nth (m.nth g0 1).2 0).2 5).1 = .none ∧
     m.len (m.nth (m.nth (m.nth g0 1).2 0).2 5).2 = some 0 ∧
-    (m.nth g0 2).1 = .some (3, [0, 1, 2]) ∧ (m.nth g0 3).1 = .none ∧
+    (m.nth g0 2).1 = .some (3, [0, 1, 2, 3]) ∧ (m.nth g0 3).1 = .none ∧
     (m.nth g0 3).2.skills = [0, 1, 2, 3] ∧ m.len (m.nth g0 3).2 = some 0 := by
   decide
 
